@@ -843,6 +843,28 @@ class Program:
             return Target("repo", func=meths[0], via="unique-attribute-name")
         return None
 
+    # ------------------------------------------------------------------ read sets
+    def reads(self, fi: FuncInfo) -> frozenset[str]:
+        """attribute names loaded in `fi` or in any repository function it may call"""
+        cache = self.__dict__.setdefault("_reads", {})
+        if fi.qual in cache:
+            return cache[fi.qual]
+        cache[fi.qual] = frozenset()  # recursion guard
+        out: set[str] = set()
+        for n in self._own_nodes(fi.node):
+            if isinstance(n, ast.Attribute) and isinstance(n.ctx, ast.Load):
+                out.add(n.attr)
+            elif isinstance(n, ast.Call):
+                for t in self.resolve_call(n, fi):
+                    if t.func is not None and t.func.qual != fi.qual:
+                        out |= self.reads(t.func)
+                    if t.kind == "ctor" and t.cls is not None:
+                        pass
+        for sub in fi.nested.values():
+            out |= self.reads(sub)
+        cache[fi.qual] = frozenset(out)
+        return cache[fi.qual]
+
     # ------------------------------------------------------------------ helpers
     def func(self, qual: str) -> FuncInfo:
         fi = self.funcs.get(qual)
